@@ -41,7 +41,7 @@ def check(case):
     # step 0 agreement of the isothermal / non-isothermal pair
     other = dict(case)
     other['func'] = case['func'].replace('isothermal', 'non_isothermal') if iso and 'non_isothermal' not in case['func'] else case['func'].replace('non_isothermal', 'isothermal')
-    other['program'] = False
+    other['program'] = bool(case.get('program')) and 'non_isothermal' in other['func']      # the isothermal model ignores a programme; its non-isothermal twin must still start at the initial temperature
     try:
         m2 = procs.run(other)[0]
         for nm in ('partial_fluxes', 'feed_evaporation_heat', 'permeate_condensation_heat'):
